@@ -92,7 +92,10 @@ func (s *storedSessionLoader) loadSession(next http.Handler) http.Handler {
 			// In the case when there was an error loading the session,
 			// we should clear the session
 			logger.Errorf("Error loading cookied session: %v, removing session", err)
-			err = s.store.Clear(rw, req)
+			// The request context may already be cancelled (client went away
+			// while the provider was validating): the session must be removed
+			// from the store nonetheless
+			err = s.store.Clear(rw, req.WithContext(context.WithoutCancel(req.Context())))
 			if err != nil {
 				logger.Errorf("Error removing session: %v", err)
 			}
